@@ -64,7 +64,7 @@ where
         } else {
             let mut q = q.clone();
             for cond in q.queries_mut() {
-                for expr in cond.conds().clone().iter() {
+                for (index, expr) in cond.conds().clone().iter().enumerate() {
                     let mut result = HashSet::new();
                     for (k, v) in db.iter() {
                         let prop_value = v.get(expr.key()).ok_or(ActError::Store(format!(
@@ -78,7 +78,7 @@ where
                             result.insert(k.as_bytes().to_vec().into_boxed_slice());
                         }
                     }
-                    cond.calc(&result);
+                    cond.calc(&result, index == 0);
                 }
             }
 
@@ -168,22 +168,18 @@ where
 }
 
 impl Cond {
-    pub fn calc(&mut self, v: &HashSet<Box<[u8]>>) {
+    /// accumulate the matches of one more expression; `first` says that nothing has been
+    /// accumulated yet (an empty result so far is a result, not "no constraint")
+    pub fn calc(&mut self, v: &HashSet<Box<[u8]>>, first: bool) {
+        if first {
+            self.result = v.clone();
+            return;
+        }
         match self.r#type {
             CondType::And => {
-                if self.result.is_empty() {
-                    self.result = v.clone();
-                } else {
-                    self.result = self.result.intersection(v).cloned().collect::<HashSet<_>>()
-                }
+                self.result = self.result.intersection(v).cloned().collect::<HashSet<_>>()
             }
-            CondType::Or => {
-                if self.result.is_empty() {
-                    self.result = v.clone();
-                } else {
-                    self.result = self.result.union(v).cloned().collect::<HashSet<_>>()
-                }
-            }
+            CondType::Or => self.result = self.result.union(v).cloned().collect::<HashSet<_>>(),
         }
     }
 }
